@@ -93,25 +93,31 @@ struct Checker
         const bool must_succeed = n >= 2 && B > A && g.front().sample_offset < end && g.back().sample_offset > 0;
         const bool must_reject = n == 1 || (n >= 2 && (all_before || all_after));
 
+        // Grids that overlap the track but cannot be normalised (the statement's last sentence): invalid_argument is the
+        // required answer. Two classes are decided before the general reference below because the reference itself would
+        // divide by zero / leave the integer range on them.
+        bool must_reject_unnormalisable = false;
         if (must_succeed)
         {
-            // Domain guard: the normalised last beat index must be representable (|index| < 2^30); tempos so small that it is
-            // not are outside the explored domain (one isolated witness is run separately).
+            // the normalised last beat index must be representable: tempos so small that it is far outside int32 must be
+            // refused; a band around the limit is left to either answer
             auto S0 = [&](double off) { return (i128)std::llround(off * 2); };
             const i128 D0 = S0(g[B].sample_offset) - S0(g[B - 1].sample_offset);
             const i128 N0 = ((i128)count * 2 - S0(g[B].sample_offset)) * (g[B].index - g[B - 1].index);
             i128 q0 = N0 / D0;
             if (q0 < 0) q0 = -q0;
-            if (q0 > ((i128)1 << 30))
+            if (q0 > ((i128)1 << 33)) { a.count("class.last_index_unrepresentable"); must_reject_unnormalisable = true; }
+            else if (q0 > ((i128)1 << 30))
             {
-                a.count("skipped.ub_last_index_overflow");
+                a.count("skipped.last_index_near_int_limit");
                 return;
             }
         }
-        if (must_succeed && g[A].index < -4 && B == A + 1 && g[B].index == -4)
+        if (must_succeed && g[A].index < -4 && g[A + 1].index <= -4)
         {
-            a.count("skipped.ub_zero_index_span");  // renumbering makes the index span zero: division by zero (see isolated witness)
-            return;
+            // renumbering the first retained marker to -4 would put it at or past the next marker
+            a.count("class.first_cannot_reach_-4");
+            must_reject_unnormalisable = true;
         }
         std::vector<beatgrid_marker> out;
         bool threw = false, threw_ia = false;
@@ -140,12 +146,12 @@ struct Checker
             return;  // touches 0 / end only: either outcome allowed by the statement
         }
         a.count("nontrivial");
-        if (threw)
+        if (must_reject_unnormalisable)
         {
-            fail("must_succeed_rejected", g, count, "grid with >= 2 markers overlapping the track was rejected");
+            a.count("outcome.unnormalisable");
+            if (!threw) fail(g[A].index < -4 ? "first_below_-4.not_increasing" : "unnormalisable_accepted", g, count, "a grid that cannot be normalised (first marker cannot reach beat -4 before the next marker, or last beat index not representable) was accepted instead of invalid_argument", &out);
             return;
         }
-        a.count("outcome.normalised");
         // --- exact reference over scaled integers (all offsets are multiples of 0.5) ---
         auto S = [&](double off) { return (i128)std::llround(off * 2); };
         const i128 E2 = (i128)count * 2;
@@ -165,6 +171,28 @@ struct Checker
         const long double xabs = std::fabs((long double)N / (long double)D);
         const bool ambiguous = (x_integer && !spb_exact) || (!x_integer && frac_dist / std::max<long double>(1, xabs) < 1e-12L);
         const long double spb_last = ((long double)D / 2) / di;
+        // the last marker, moved by m beats, must stay after its predecessor (which is the renumbered first marker when only
+        // two markers are retained); otherwise the grid cannot be normalised and must be refused
+        {
+            const i128 prev_index = B - 1 == A ? -4 : (i128)g[B - 1].index;
+            const i128 new_last = (i128)g[B].index + m;
+            const bool cannot = new_last <= prev_index;
+            const bool borderline = ambiguous && (new_last == prev_index || new_last == prev_index + 1);
+            if (borderline) { a.count("skipped.last_index_borderline"); return; }
+            if (cannot)
+            {
+                a.count("outcome.unnormalisable");
+                a.count("class.last_passes_predecessor");
+                if (!threw) fail(g[A].index < -4 ? "first_below_-4.not_increasing" : "unnormalisable_accepted", g, count, "the last marker would have to move to or before its predecessor: the grid cannot be normalised and should be refused with invalid_argument", &out);
+                return;
+            }
+        }
+        if (threw)
+        {
+            fail("must_succeed_rejected", g, count, "grid with >= 2 markers overlapping the track was rejected");
+            return;
+        }
+        a.count("outcome.normalised");
 
         // strictly increasing (checked first: for a first retained index below -4 the library moves the first marker
         // forward, and a non-increasing result there is one known defect class, reported under its own key)
